@@ -142,6 +142,20 @@ CHECKS.update({
    technique="TLA+ ownership invariant (NoSharedTree) model-checked with TLC + TLC trace validation of logged Form-node identities (GritsRTTrace NoSharedNode, Own.tla Exclusive); race-detector build as auxiliary oracle below the action level"),
 })
 
+CHECKS.update({
+ "C15": dict(cat="model_checking", design="DESIGN.md 5 C15", engine="Print",
+   text="Print.tla specifies both directions on token sequences: Show (the tokens a printer must produce: * and -* are right associative and a shift extends to the right, so "
+        "exactly a left operand that is itself an output, input or shift type is parenthesised) and Parse (the type sub-grammar of parser.y as a recursive descent). TLC checks "
+        "Parse(Show(t)) = t on every written type up to depth 2 (so Show is injective) and rejects the parenthesis-free printer of the pinned commit. The real code is bound to "
+        "it by a call log: each generated moded type is printed by String(), lexed by the real scanner and re-parsed by the real parser under its head mode; TLC checks PrintOK "
+        "(the real tokens, read by the specified grammar, are the written form of the type), ParserOK (the real parser reads them as the grammar does, with ModeInfer's modes), "
+        "RoundTrip (identity) and NoCollision (equal texts only for equal written types). Process terms: every body of the corpus / generated programs is printed by Form.String(), "
+        "re-parsed alone and PrintForm.tla's SameTerm compares the denoted terms (structure, names, self flags, labels, callees).",
+   note="Trusted: TLC, vworker, the token-name probe of the real lexer. Bounded: types of depth <= 2 exhaustively (sampled in the quick tier) + seeded random types up to depth 5; "
+        "terms from the corpus programs. Type annotations of cuts are not part of the printed term by design; explicit polarity marks are known finding K5.",
+   technique="TLA+ specification of printer and type grammar (Print.tla: left inverse model-checked with TLC) + TLC validation of a print / lex / parse call log of the real code; PrintForm.tla term equality for process terms"),
+})
+
 REASON_TODO = "check not built yet (build in progress, see DESIGN.md section 9)"
 
 def main():
@@ -169,6 +183,8 @@ def main():
               "kind_free_text": "TLA+ specification of the command line pipeline; model mode (all configurations) and conform mode (recorded invocations)"},
              {"name": "Host", "path": "spec/Host.tla", "serves_properties": ["C19"],
               "kind_free_text": "TLA+ specification of run isolation inside one host process; model mode (histories) and conform mode (recorded histories)"},
+             {"name": "Print", "path": "spec/Print.tla", "serves_properties": ["C15"],
+              "kind_free_text": "TLA+ specification of the type printer and the type grammar (PrintLib / Print / PrintForm); model mode (left inverse on all small types) and conform mode (print / lex / parse log)"},
              {"name": "Own", "path": "spec/Own.tla", "serves_properties": ["C13"],
               "kind_free_text": "TLA+ specification of the ownership of syntax-tree nodes by live processes; TLC validates the node identities logged by the hooks (all execution versions)"},
              {"name": "Scanner", "path": "spec/Scanner.tla", "serves_properties": ["C11", "C12"],
